@@ -27,6 +27,13 @@ def gen_ops(tier, rng):
                 ops.append((f"gen {f} {d} {p}" + (" dump" if d * p <= 64 else ""), {"cat": "gen-" + f.split(":")[0], "p": p}))
     for d in range(1, 40, 3):
         ops.append((f"gen xor {d} 1", {"cat": "gen-xor", "p": 1}))
+    # several matrix options in one option list: every matrix option resets the others, the last one decides
+    import itertools
+    for combo in itertools.permutations(["par1", "jerasure", "cauchy", "default"], 2):
+        for (d, p) in [(4, 4), (5, 3), (10, 4)]:
+            ops.append((f"gen {'+'.join(combo)} {d} {p} dump", {"cat": "gen-option-order", "p": p}))
+    for combo in itertools.permutations(["par1", "jerasure", "cauchy"], 3):
+        ops.append((f"gen {'+'.join(combo)} 4 4 dump", {"cat": "gen-option-order", "p": 4}))
     for _ in range(60 if tier == "quick" else 2000):
         f = rng.choice(fams6 + [f"custom:{rng.randrange(1, 999)}"])
         d = rng.randint(1, 255)
@@ -54,6 +61,12 @@ def gen_ops(tier, rng):
         for p in range(1, 11):
             for o in (kopts if tier == "thorough" else [kopts[(d + p) % 3]]):
                 enc(rng.choice(["default", "cauchy"]), o, d, p, 40000 + 64 * rng.randint(0, 40) + rng.choice([0, 0, 13]), "enc-kernel-windows")
+    # sparse custom matrices (zero coefficients, also in column 0) on every path: the first term of a row must still
+    # overwrite stale parity; shapes above and below 10 shards, sizes with tails above and below minSplitSize
+    for (d, p) in [(12, 4), (4, 12), (5, 3), (11, 11), (3, 2)]:
+        for o in ["-", "gfni-,avxgfni-", "gfni-,avxgfni-,avx2-", "nosimd", "g=1", "gfni-,avxgfni-,ms=2048"]:
+            for size in [33, 4097, 9999, 20001, 65537]:
+                enc(f"sparse:{rng.randrange(1, 999)}", o, d, p, size, "enc-sparse")
     for tail in range(64):
         enc("default", rng.choice(OPTSETS), 10, 4, 4096 + tail, "enc-tail")
         enc("cauchy", rng.choice(OPTSETS), 3, 11, 1024 + tail, "enc-tail")
